@@ -625,11 +625,12 @@ def run_property(pid, mod, tier, seed, update_bounds=False, only=None):
             other = [(p, t, s) for p, t, s in results if s == 'FAILURE' and 'LEMMA:' not in t and 'WITNESS:' not in t and 'SAFETY:' not in t]
             res['assertions'] = len(results)
             res['witnesses'] = len(wit)
-            if not wit or any(s == 'SUCCESS' for _, _, s in wit):
+            fails = [(p, t) for p, t, s in lem if s == 'FAILURE'] + ([(p, t) for p, t, s in other] if o.kind == 'c13' else [])
+            # a failed lemma is witnessed by a concrete path, so it is examined even if some reachability witness is not met
+            if not fails and (not wit or any(s == 'SUCCESS' for _, _, s in wit)):
                 res['verdict'] = 'HARNESS-VACUOUS'
                 res['why'] = 'witness assertion(s) not violated: ' + '; '.join(t for _, t, s in wit if s == 'SUCCESS')
                 return res
-            fails = [(p, t) for p, t, s in lem if s == 'FAILURE'] + ([(p, t) for p, t, s in other] if o.kind == 'c13' else [])
             if not lem and o.kind != 'c13':
                 res['verdict'] = 'HARNESS-VACUOUS'
                 res['why'] = 'no lemma assertion reached'
